@@ -2,6 +2,8 @@ package main
 
 // C19 (g): ProofDocument + verification.VerifyDocument accept the genuine document for the client's known
 // state (first use and with a previous state) and reject altered documents / foreign proofs / altered bytes.
+// One field is altered at a time here; the rounds for every relation known-state / document tx and the coherent
+// forgeries (several fields rebuilt consistently) are in c19_forge.go.
 
 import (
 	"bytes"
